@@ -52,7 +52,19 @@ impl SignalHandler {
       target_os = "netbsd",
       target_os = "openbsd",
     ))]
-    if signal != Signal::Info && self.caught.is_none() {
+    let fatal = signal != Signal::Info;
+
+    #[cfg(not(any(
+      target_os = "dragonfly",
+      target_os = "freebsd",
+      target_os = "ios",
+      target_os = "macos",
+      target_os = "netbsd",
+      target_os = "openbsd",
+    )))]
+    let fatal = true;
+
+    if fatal && self.caught.is_none() {
       self.caught = Some(signal);
     }
 
